@@ -98,9 +98,10 @@ def record_and_validate(ctx, binary, ntr, nops, seed, tag):
     n = 0
     with open(clean, "w") as out:
         for line in open(trace):
-            if '"kind":"mismatch"' in line[:60]:
+            if '"kind":"mismatch"' in line[:60] or '"kind":"summary"' in line[:80]:
                 r = json.loads(line)
-                ctx.violation(r["sig"], dict(r["detail"], mode="record", seed=seed, ntraces=ntr, nops=nops))
+                if r.get("kind") == "mismatch":
+                    ctx.violation(r["sig"], dict(r["detail"], mode="record", seed=seed, ntraces=ntr, nops=nops))
                 continue
             out.write(line)
             n += 1
